@@ -210,3 +210,13 @@ func BadView(r Router, dir string) fs.FS {
 	m, sub := r.Mount(dir)
 	return &view{parent: m, dir: sub}
 }
+
+// ---- pool: handle values must not be recycled (R17.6)
+
+var anyPool sync.Pool
+
+// GoodPool recycles a byte buffer.
+func GoodPool(b *[]byte) { anyPool.Put(b) }
+
+// BadPool recycles a handle: the closed handle's owner still holds the pointer.
+func BadPool(d *GoodDir) { anyPool.Put(d) }
